@@ -1,6 +1,7 @@
 import TonicModel.Model.Timeout
 import TonicModel.Spec.Timeout
 import TonicModel.Lemmas.Decimal
+import TonicModel.Lemmas.TimeoutDigits
 /-
 C09 — Deadlines: faithful grpc-timeout encoding and shortest-deadline enforcement.
 Property theorems only; helper lemmas live in `Lemmas/`.
@@ -74,7 +75,12 @@ private theorem visible_of_unit (b : UInt8) (un : U) (h : U.ofByte b = some un) 
 
 /-- The parser computes exactly the spec's denotation: every spec-conformant value is parsed
 to the duration it denotes and every other byte string is ignored (`none`), for all byte
-strings. -/
+strings.  CAVEAT: the oracle `Spec.Timeout.denote` reads the value part with `digitsVal` and
+`Ascii.isDigit` (Basic/Bytes.lean), and so does the model's `parseValue` — in THIS theorem the number
+reader is compared with itself (a wrong `digitsVal` would cancel out); independent here are the unit
+table, the 1–8 digit bound and the visibility check.  The number reader is pinned separately:
+`C09_digit_reader_is_positional`, and `C09_parse_is_spec_positional` is this statement against an
+oracle that shares no reader with the model. -/
 theorem C09_parse_is_spec (v : Bytes) : tryParse v = Spec.Timeout.denote v := by
   rcases List.eq_nil_or_concat v with rfl | ⟨ds, ub, rfl⟩
   · simp [tryParse, Spec.Timeout.denote]
@@ -103,6 +109,22 @@ theorem C09_parse_is_spec (v : Bytes) : tryParse v = Spec.Timeout.denote v := by
           | none => simp
           | some un => simp [visible_of_unit ub un hu, Nat.mul_comm]
         · simp [hdig, hemp]
+
+/-- The number reader shared by oracle and model, pinned against a reading that mentions neither
+`digitsVal` nor `Ascii.isDigit`: `Spec.Timeout.positional` takes each digit's value from a ten-row
+table and weighs it by its power of ten (most significant first), `none` if a byte is not in the
+table.  For every byte string: the bytes `Ascii.isDigit` accepts are exactly the table's, and on
+them `digitsVal` is the positional value. -/
+theorem C09_digit_reader_is_positional (ds : Bytes) :
+    (if ds.all Ascii.isDigit then some (digitsVal ds) else none) = Spec.Timeout.positional ds :=
+  (Spec.Timeout.positional_eq ds).symm
+
+/-- `C09_parse_is_spec` against an oracle that shares no number reader with the model: for all byte
+strings the parser's result is the duration the value denotes when its digits are read positionally
+(`Spec.Timeout.denotePositional`: last byte a unit of the table, before it 1–8 table digits), `none`
+otherwise. -/
+theorem C09_parse_is_spec_positional (v : Bytes) : tryParse v = Spec.Timeout.denotePositional v := by
+  rw [C09_parse_is_spec, Spec.Timeout.denote_eq_positional]
 
 /-- Parsing what tonic itself wrote gives back exactly the denoted duration. -/
 theorem C09_parse_enc (d : Nat) (vu : Nat × U) (h : encodeVU d = some vu) :
@@ -524,16 +546,23 @@ theorem C09_timer_from_first_poll_fails : ¬ TimerFromFirstPollMeetsSpec := by
 
 /-! ### Several calls through one middleware: calls are independent -/
 
-/-- `GrpcTimeout::call` leaves the middleware as it found it, and the sleep it picks is a function
-of the configured timeout and THIS request's header only. (Transcription lemma: it pins the
-model's shape for the `mw` / `chan` / `conn` correspondence runs.) -/
+/-- Transcription lemma (definitional, `⟨rfl, rfl⟩`): it pins the model's shape for the `mw` / `chan` /
+`conn` correspondence runs, which carry the assurance.
+`GrpcTimeout::call` leaves the middleware as it found it, and the sleep it picks is a function
+of the configured timeout and THIS request's header only. -/
 theorem C09_middleware_is_stateless (m : Mw) (header : Option Nat) :
     (m.call header).1 = m ∧ (m.call header).2 = effective header m.configured := ⟨rfl, rfl⟩
 
 private theorem clientCall_eq (c e : Option Nat) (r : Reply) :
     clientCall c e r = clientCallWith (effective c e) r := rfl
 
-/-- For EVERY sequence of calls on one `Channel` (any length, any caller deadlines, any peer
+/-- Transcription lemma (definitional): `Mw.call` is written to return the middleware unchanged
+(`(m.call h).1 = m` by `rfl`, `C09_middleware_is_stateless`), and that alone gives this equation — so
+it unfolds the model's shape and carries no assurance of its own about tonic; its use is as the step
+to `C09_channel_calls_each_meet_spec` and as the statement the counter-model fails
+(`C09_sticky_first_header_fails`); that the real `GrpcTimeout::call` keeps nothing between calls is
+established by the `mw` / `chan` / `chano` / `conn` / `conno` correspondence cases (several calls on ONE value).
+For EVERY sequence of calls on one `Channel` (any length, any caller deadlines, any peer
 replies, with or without `Endpoint::timeout`) each call's outcome and completion time is the
 single-call model's — what a fresh channel would give — whatever calls came before it. -/
 theorem C09_calls_are_independent (endpoint : Option Nat) (calls : List (Option Nat × Reply)) :
@@ -545,7 +574,9 @@ theorem C09_calls_are_independent (endpoint : Option Nat) (calls : List (Option 
     simp only [channelCalls, channelCallsBy, Mw.call, List.map_cons, clientCall_eq] at ih ⊢
     rw [ih]
 
-/-- The same said for one call after an arbitrary history: the calls before it change nothing
+/-- Transcription lemma (definitional): `C09_calls_are_independent` (which holds because `Mw.call`
+returns the middleware unchanged) read for the last call of a history; assurance: the `chan` cases.
+The same said for one call after an arbitrary history: the calls before it change nothing
 about it, and it changes nothing about them. -/
 theorem C09_call_after_any_history (endpoint : Option Nat) (before : List (Option Nat × Reply))
     (caller : Option Nat) (r : Reply) :
@@ -553,7 +584,11 @@ theorem C09_call_after_any_history (endpoint : Option Nat) (before : List (Optio
       channelCalls ⟨endpoint⟩ before ++ [clientCall caller endpoint r] := by
   simp [C09_calls_are_independent]
 
-/-- Overlapping calls reach `GrpcTimeout::call` in SOME order (the `Buffer` worker's queue): the
+/-- Transcription lemma (definitional): by `C09_calls_are_independent` the outcomes are a `map` over
+the calls, and a `map` commutes with every permutation (`List.Perm.map`) — true of any per-call
+function; the assurance that the real `Buffer` + `GrpcTimeout` behave so is the `chano` cases
+(overlapping calls from `Channel` clones in separate tasks).
+Overlapping calls reach `GrpcTimeout::call` in SOME order (the `Buffer` worker's queue): the
 outcomes do not depend on it — reordering the dispatches reorders the outcomes and nothing else. -/
 theorem C09_dispatch_order_is_irrelevant (endpoint : Option Nat)
     (calls calls' : List (Option Nat × Reply)) (h : calls.Perm calls') :
@@ -756,10 +791,18 @@ example : [(some 100, plainPeer (some 50)), (none, plainPeer none)].Perm
 
 /-! ### Audit aC09: dimensions that must be invisible -/
 
-/-- "Unaffected if it finishes before that" for EVERY result of the call's own: one `GrpcTimeout`
-(either side) around something that ends with its own status `own` (OK or an error status) after
-`l`, or never — the caller has in hand exactly what the oracle's `report` says: `own` at `l` if the
-call finished by the shorter deadline, CANCELLED "Timeout expired" at that deadline otherwise. -/
+/-- "Unaffected if it finishes before that": one `GrpcTimeout` (either side) around something that
+ends with its own status `own` (OK or an error status) after `l`, or never — the caller has in hand
+exactly what the oracle's `report` says: `own` at `l` if the call finished by the shorter deadline,
+CANCELLED "Timeout expired" at that deadline otherwise.
+What the quantifier over `own` is worth: NOTHING beyond `C09_stage_meets_spec` +
+`C09_status_is_cancelled_timeout_expired`.  The call's own status never enters the model
+(`Done.inner t` carries no status; `seen own` pastes `own` back onto it, as `Spec.Timeout.report`
+does on the oracle's side), so the statement is parametric in `own` by construction — transcription
+of "the middleware hands the wrapped future's output on as it is".  That a real handler's error status
+(and OK) comes through unchanged when the call finishes in time is established by the correspondence
+run (`cx` / `sx` cases, token `own` = ok / e1 / e4 / e5 / e14: peers and handlers that end the call
+with a status of their own, before and after the deadline), not here. -/
 theorem C09_own_status_unaffected (own : Nat × Bytes) (h c l : Option Nat) :
     seen own (stage h c (answer l)) =
       Spec.Timeout.report own (Spec.Timeout.expected [h, c] l) := by
@@ -767,7 +810,9 @@ theorem C09_own_status_unaffected (own : Nat × Bytes) (h c l : Option Nat) :
   cases stage h c (answer l) <;>
     simp [seen, asExpect, Spec.Timeout.report, C09_status_is_cancelled_timeout_expired]
 
-/-- The same through the client stack against a peer that enforces nothing. -/
+/-- The same through the client stack against a peer that enforces nothing (same caveat: parametric
+in `own` by construction of `seen`; this is `C09_client_cutoff_plain_peer` +
+`C09_status_is_cancelled_timeout_expired`). -/
 theorem C09_own_status_unaffected_client (own : Nat × Bytes) (caller endpoint l : Option Nat) :
     seen own (clientCall caller endpoint (plainPeer l)) =
       Spec.Timeout.report own (Spec.Timeout.expected [caller, endpoint] l) := by
@@ -775,7 +820,10 @@ theorem C09_own_status_unaffected_client (own : Nat × Bytes) (caller endpoint l
   cases clientCall caller endpoint (plainPeer l) <;>
     simp [seen, asExpect, Spec.Timeout.report, C09_status_is_cancelled_timeout_expired]
 
-/-- `MakeSvc::call` leaves the `MakeSvc` as it was: accepting a connection changes nothing for the
+/-- Transcription lemma (definitional, `⟨rfl, rfl⟩`): `Srv.accept` is written to return the `MakeSvc`
+unchanged and to copy its timeout; it pins the model's shape for the `sx` correspondence cases
+(one real server, 1-3 connections), which carry the assurance.  Twin of `C09_middleware_is_stateless`.
+`MakeSvc::call` leaves the `MakeSvc` as it was: accepting a connection changes nothing for the
 connections accepted later. -/
 theorem C09_accept_is_stateless (s : Srv) : (s.accept).1 = s ∧ (s.accept).2 = ⟨s.timeout⟩ :=
   ⟨rfl, rfl⟩
@@ -814,7 +862,12 @@ theorem C09_take_on_accept_fails : ¬ TakeConnsMeetSpec := by
 theorem C09_take_single_connection_agrees (s : Srv) (reqs : List (Option Nat × Option Nat)) :
     serverConnsBy Srv.acceptTake s [reqs] = serverConns s [reqs] := rfl
 
-/-- A response future that changes hands (polled while pending by one task, then first polled by
+/-- Transcription lemma (definitional): `handoverBy true` is `lateCut` written out a second time
+(`cases T <;> simp [handoverBy, latePoll, lateCut]`), so this compares two copies of one definition;
+what it is FOR is `C09_handover_meets_spec` (against the independent oracle) and the contrast with
+the counter-model `handoverBy false` (`C09_stale_timer_waker_fails`); that a real `ResponseFuture`
+re-registers its timer's waker on every poll is established by the `runw` / `cliw` correspondence cases.
+A response future that changes hands (polled while pending by one task, then first polled by
 its new owner at `p`): for the new owner it is a future first polled at `p` — the hand-over is
 invisible. -/
 theorem C09_handover_is_late_poll (T l : Option Nat) (p : Nat) :
